@@ -474,6 +474,70 @@ func init() {
 				}
 			}
 		}
+		// (b3) one parsed template, never executed before, executed by all goroutines at once with data that
+		// DIFFERS per goroutine (outputs of very different sizes, most longer than the source): executing
+		// a shared template only reads it; the expected outputs are computed without running it
+		for round := 0; round < 4; round++ {
+			for _, G := range []int{4, 16} {
+				src := fmt.Sprintf("<ul r=\"%d-%d\"><%%= for (x) in items { %%><li><%%= x %%></li><%% } %%></ul>", round, G)
+				var t *plush.Template
+				var err error
+				switch round % 3 {
+				case 0:
+					t, err = plush.NewTemplate(src)
+				case 1:
+					plush.CacheEnabled = true
+					t, err = plush.Parse(src)
+				default:
+					t, err = plush.NewTemplate(src)
+					if err == nil {
+						t = t.Clone()
+					}
+				}
+				if err != nil {
+					e.Violate("c14-output-differs", fmt.Sprintf("%s does not parse: %v", src, err), nil)
+					continue
+				}
+				outs := make([]string, G)
+				wants := make([]string, G)
+				errs := make([]error, G)
+				start := make(chan struct{})
+				var wg sync.WaitGroup
+				for g := 0; g < G; g++ {
+					items := []string{}
+					var w strings.Builder
+					fmt.Fprintf(&w, "<ul r=\"%d-%d\">", round, G)
+					for i := 0; i < 1+g*9; i++ {
+						items = append(items, fmt.Sprintf("item-%d-%d", g, i))
+						fmt.Fprintf(&w, "<li>item-%d-%d</li>", g, i)
+					}
+					w.WriteString("</ul>")
+					wants[g] = w.String()
+					wg.Add(1)
+					go func(g int, items []string) {
+						defer wg.Done()
+						ctx := plush.NewContext()
+						ctx.Set("items", items)
+						<-start
+						for rep := 0; rep < 3; rep++ {
+							outs[g], errs[g] = t.Exec(ctx)
+						}
+					}(g, items)
+				}
+				close(start)
+				c14wait(e, &wg)
+				e.rep.Evaluations += G
+				e.Count("first-executions-differing-data")
+				e.Distinct(fmt.Sprintf("firstexec/%d/%d", round, G))
+				for g := 0; g < G; g++ {
+					if errs[g] != nil || outs[g] != wants[g] {
+						e.Violate("c14-output-differs", fmt.Sprintf("shared template first executed by %d goroutines at once with different data: goroutine %d got %d bytes (%v), want %d bytes", G, g, len(outs[g]), errs[g], len(wants[g])), map[string]interface{}{"goroutines": G, "tmpl": src})
+						break
+					}
+				}
+			}
+		}
+		plush.CacheEnabled = true
 		// (c3) a Template built as a literal is parsed by its first Exec: all goroutines make that first
 		// call (and Clone it) at the same moment
 		for round := 0; round < 6; round++ {
